@@ -138,6 +138,10 @@ def run_worker(cfg, scenarios, workdir, name, timeout=None, binary="worker"):
                     f.write(json.dumps(b) + "\n")
                 f.write(json.dumps(ev) + "\n")
                 done = tid
+            elif "address already in use" in (se or so) and info.setdefault("bind_retries", 0) < 5:
+                # the port picked for the proxy was taken by somebody else before it could bind: start again
+                info["bind_retries"] += 1
+                done = max(done, last_end)
             else:
                 info["harness_errors"].append("rc=%s %s" % (rc, (se or so)[-400:]))
                 return trace, info
